@@ -113,6 +113,15 @@ def _worker(args):
     import logging
 
     logging.disable(logging.CRITICAL)  # the SDK logs every handled exception with a traceback
+    cov = None
+    if os.environ.get("VERIF_COVERAGE"):
+        # development aid (tools/sdkcov.sh): which SDK lines do the generated cases execute?
+        import coverage
+
+        from . import REPO
+
+        cov = coverage.Coverage(data_file=os.path.join(os.environ["VERIF_COVERAGE"], f".coverage.{prop}.{shard}"), source=[os.path.join(REPO, "src")], concurrency=["thread"])
+        cov.start()
     try:
         import importlib
 
@@ -122,6 +131,10 @@ def _worker(args):
         return ("ok", ctx.to_payload())
     except BaseException:  # noqa: BLE001 - harness error, reported as exit 2
         return ("err", traceback.format_exc())
+    finally:
+        if cov is not None:
+            cov.stop()
+            cov.save()
 
 
 def load_known() -> dict:
